@@ -117,6 +117,7 @@ def registrations(prog, cls):
         return out
     scalar = 'long double' if '<long double' in cls else 'double'
     E = terms.Evaluator(prog, dyn_class=cls, scalar=scalar, opaque=('register_var', 'register_vec', 'init_var'))
+    E.vecmodel = True
     outs = E.run(ctors[0])
     if len(outs) != 1:
         raise AnalysisBroken('constructor of %s has %d paths' % (cls, len(outs)))
